@@ -326,8 +326,14 @@ def _container_complete(ctx, unit: Unit, cfg: CFG, siter: Node, src: str) -> Opt
         comp = value
         if isinstance(comp, ast.Tuple) and len(comp.elts) == 1 and isinstance(comp.elts[0], ast.Starred):
             comp = comp.elts[0].value
-        if isinstance(comp, ast.Call) and isinstance(comp.func, ast.Name) and comp.func.id in ("list", "tuple") and comp.args:
+        if isinstance(comp, ast.Call) and norm(comp.func).split(".")[-1] in ("list", "tuple") and comp.args:
             comp = comp.args[0]
+        if isinstance(comp, ast.Name) and comp.id != name:
+            # ``C = tuple(L)``: L is a list that was filled by an explicit loop
+            why = _filled_completely(ctx, unit, cfg, comp.id)
+            if why:
+                return f"container `{name}` is built from `{comp.id}`: {why}"
+            continue
         if isinstance(comp, (ast.ListComp, ast.GeneratorExp)):
             if any(g.ifs for g in comp.generators):
                 return f"container `{name}` is built by a filtered comprehension: some iterators are never closed"
@@ -362,6 +368,42 @@ def _container_complete(ctx, unit: Unit, cfg: CFG, siter: Node, src: str) -> Opt
             if not in_stop:
                 return (f"`{norm(n.ast).splitlines()[0]}` removes an iterator from `{name}` "
                         f"outside an exhaustion handler: it would never be closed")
+    return None
+
+
+def _filled_completely(ctx, unit: Unit, cfg: CFG, lname: str) -> Optional[str]:
+    """A local list that starts empty and receives one element per element of the loop it is
+    filled in, unconditionally ('' = complete, else the reason it may be incomplete)."""
+    inits = [n for n in cfg.nodes if n.kind == "store" and not n.tag and lname in {
+        t.id for t in n.info.get("targets", []) if isinstance(t, ast.Name)}]
+    for i in inits:
+        v = i.info.get("value")
+        empty = (isinstance(v, ast.List) and not v.elts) or (isinstance(v, ast.Call) and norm(v.func).split(".")[-1] == "list" and not v.args)
+        if not empty:
+            return f"`{lname}` is not started as an empty list"
+    adds = [n for n in cfg.nodes if n.kind == "call" and not n.tag and isinstance(n.ast.func, ast.Attribute)
+            and isinstance(n.ast.func.value, ast.Name) and n.ast.func.value.id == lname]
+    if not adds:
+        return f"nothing is added to `{lname}`"
+    for a in adds:
+        if a.ast.func.attr != "append":
+            return f"`{lname}.{a.ast.func.attr}(...)`"
+        loops = [x for (k, x) in a.regions if k == "loop" and isinstance(x, ast.For)]
+        if not loops:
+            return f"`{lname}.append` outside a loop over the arguments"
+        loop = loops[-1]
+        it = loop.iter
+        if isinstance(it, ast.Call) and norm(it.func).split(".")[-1] == "enumerate" and it.args:
+            it = it.args[0]
+        if not isinstance(it, ast.Name):
+            return f"the filling loop ranges over `{norm(loop.iter)}`, not the complete argument"
+        head = [n for n in cfg.nodes if n.kind == "snext" and n.ast is loop and not n.tag]
+        for h in head:
+            body = [s for (lab, s) in h.succ if lab == "n"]
+            skip = find_path(body[0], lambda x: x is h, avoid=lambda x: x is a,
+                             edge_ok=lambda p_, lab, q: lab not in ("e", "p")) if body else None
+            if skip is not None:
+                return f"`{lname}.append` can be skipped for some arguments"
     return None
 
 
